@@ -107,7 +107,7 @@ def run(ctx):
 
     # 2. (data set, statement, Eval) triples -> every layout of the real engine / cluster
     glen = 16
-    nbeh = ctx.pick(24, 300)
+    nbeh = ctx.pick(24, 470)
     ctx.write_cfg(sd, "Gen.cfg", "GSpec", gen_consts(glen), extra="INVARIANT Emit")
     behs = ctx.tlc_generate(sd, "QueryGen", "Gen.cfg", num=nbeh, depth=glen + 1, timeout=1800)[:nbeh]
     behs = decorate(behs, ctx.seed)
